@@ -1,7 +1,7 @@
 (* Props/C01.v — Nothing in an accepted message is silently discarded.
    Property theorems only. *)
 
-From SwiftMT Require Import Base.Bytes Engine.Layout Engine.Tokens Engine.Facts Engine.Instance.
+From SwiftMT Require Import Base.Bytes Engine.Layout Engine.Tokens Engine.Facts Engine.Instance Engine.Extract Engine.Factor Engine.FactorInstance.
 
 (* For each of the 30 parse_from_block4 bodies as regenerated from the current source, for
    EVERY field-parser behaviour [fparse], every token sequence and every fuel: if the text
@@ -21,5 +21,23 @@ Qed.
 Theorem C01_layouts_recognised : layouts_ok = true.
 Proof. exact gen_layouts_ok. Qed.
 
+(* The same at byte level: the byte cursor (field_extractor.rs and MessageParser as transcribed in
+   Engine/Extract.v) reads a canonical text -- optional leading white space, then ":tag:content" and a line
+   end (LF or CRLF) per field, tags of 2-4 ASCII alphanumerics, contents in which no line starts with a colon
+   or a dash, without dash-brace and without trailing line end -- exactly as the token cursor reads its token
+   list (Engine/Factor.v, exec_factor), so an accepted text is accounted for byte for byte. *)
+Theorem C01_accept_exact_bytes : forall T L, In (T, L) all_layouts ->
+  forall crlf fparse fuel w toks its, aws w = true -> forallb tok_ok toks = true ->
+  brun fparse fuel L (w ++ render crlf toks) = Accept its ->
+  map tok_of its = toks /\ Forall (item_ok fparse) its /\ w ++ render crlf (map tok_of its) = w ++ render crlf toks.
+Proof. exact accept_exact_bytes. Qed.
+
+Theorem C01_byte_level_is_token_level : forall T L, In (T, L) all_layouts ->
+  forall crlf fparse fuel w toks, aws w = true -> forallb tok_ok toks = true ->
+  brun fparse fuel L (w ++ render crlf toks) = trun fparse fuel L toks.
+Proof. exact layout_factor. Qed.
+
 Print Assumptions C01_accept_exact.
 Print Assumptions C01_layouts_recognised.
+Print Assumptions C01_accept_exact_bytes.
+Print Assumptions C01_byte_level_is_token_level.
